@@ -175,6 +175,10 @@ class Defs:
 Classifier = Callable[[ast.AST], Optional[Tuple[str, bool]]]
 
 
+class FreeAtom(AnalysisError):
+    """A branch condition that is none of the rule's atoms; carries the name under which it joins the truth table."""
+
+
 def eval_atoms(expr: ast.AST, classify: Classifier, asg: Dict[str, bool], used: Optional[Set[str]] = None) -> bool:
     if isinstance(expr, ast.Constant):
         return bool(expr.value)
@@ -194,7 +198,12 @@ def eval_atoms(expr: ast.AST, classify: Classifier, asg: Dict[str, bool], used: 
         return eval_atoms(expr.body if eval_atoms(expr.test, classify, asg, used) else expr.orelse, classify, asg, used)
     c = classify(expr)
     if c is None:
-        raise AnalysisError(f"condition `{unparse(expr)[:70]}` is not one of the atoms the rule's truth table is built over")
+        # an atom the rule does not know: a *free* atom - the table is built for both of its values (table_rule), so a condition
+        # that lets the guarded effect through where a required atom fails is reported whatever the free atom stands for
+        free = "?" + unparse(expr)[:70]
+        if free not in asg:
+            raise FreeAtom(free)
+        c = (free, True)
     name, pos = c
     if name not in asg:
         raise AnalysisError(f"atom {name!r} has no value in the truth-table assignment")
@@ -247,10 +256,21 @@ def all_assignments(atoms: Sequence[str]):
 def table_rule(ctx: Ctx, rid: str, fn: FuncInfo, g: CFG, classify: Classifier, atoms: Sequence[str],
                hit: Callable[[str, Optional[CNode], List[CNode]], bool], required: Dict[str, bool], what: str) -> None:
     """`hit` (the guarded effect happens) must imply every required atom value; and some row must hit."""
-    rows = []
-    for asg in all_assignments(atoms):
-        outcome, node, visited, trace = walk_atoms(g, classify, asg)
-        rows.append((asg, hit(outcome, node, visited), trace))
+    atoms = list(atoms)
+    for _ in range(5):
+        rows = []
+        try:
+            for asg in all_assignments(atoms):
+                outcome, node, visited, trace = walk_atoms(g, classify, asg)
+                rows.append((asg, hit(outcome, node, visited), trace))
+            break
+        except FreeAtom as fa:
+            name = str(fa)
+            if name in atoms:
+                raise AnalysisError(f"{rid}: free atom {name} could not be resolved")
+            atoms.append(name)
+    else:
+        raise AnalysisError(f"{rid}: more than four conditions of {fn.short} are unknown to the rule's truth table")
     for a, want in required.items():
         bad = [(asg, tr) for asg, h, tr in rows if h and asg[a] != want]
         ctx.record(rid, ctx.key(fn, f"{what} requires {a}={want}"), fn.loc(), not bad,
